@@ -261,6 +261,8 @@ WINPATHS = [
     rb"c:\temp\test-file.txt", rb"c:\temp\foo\..\.\.\test-file", rb"c:\temp\foo\..\.\payload.exe", rb"\\127.0.0.1\c$\temp\test-file.txt", rb"\\some-domain.com@SSL\SERVER\file",
     rb"\\?\UNC\127.0.0.1\path\file.exe", rb"\\host.example.org\share\..\lib.dll", rb"\\.\c:\temp\.\x\..\prog.exe", rb"..\temp\dir\..\name.dll", rb"c:\aaa\.\bbb\ccc.exe",
     rb"\\?\UNC\server.example.com\share\dir\..\file.txt", rb"\\0x7f.0.0.1\share\abc\file.exe",
+    # the file name's text also occurs earlier in the path: the child must index the LAST segment
+    rb"c:\test.exe.bak\test.exe", rb"c:\data.txt\a.txt", rb"\\run.bat.example.com\share\run.bat", rb"c:\lib.dll\sub\..\lib.dll",
 ]
 
 
